@@ -301,7 +301,9 @@ def tlc(module, cfg=None, workers=4, timeout=900, env=None, simulate=None, depth
         cmd += extra
     cmd.append(os.path.join(SPEC, module + ".tla"))
     e = dict(os.environ)
-    jopts = f"-Xmx{heap} -Xss1g"
+    jtmp = os.path.join(scratch(), "jtmp")      # TLC's temporary directories go with the scratch directory of the check
+    os.makedirs(jtmp, exist_ok=True)
+    jopts = f"-Xmx{heap} -Xss1g -Djava.io.tmpdir={jtmp}"
     if dfs:
         jopts += " -Dtlc2.tool.queue.IStateQueue=StateDeque"
     e["JAVA_TOOL_OPTIONS"] = jopts
